@@ -274,9 +274,9 @@ class TextFileProvider(FileProvider):
         if isinstance(self.ctx, HostContext) and self._filters:
             # Pre-filtering ONLY when collecting data
             log.debug("Pre-filtering %s", self.relative_path)
-            args.append(
-                ["grep", "-F", "\n".join(sorted(self._filters.keys(), reverse=True)), self.path]
-            )
+            # "-e" keeps a filter with leading "-" from being taken as an option
+            patterns = "\n".join(sorted(self._filters.keys(), reverse=True))
+            args.append(["grep", "-F", "-e", patterns, self.path])
 
         return args
 
@@ -409,7 +409,9 @@ class CommandOutputProvider(ContentProvider):
 
         if self.split and self._filters:
             log.debug("Pre-filtering  %s", self.relative_path)
-            command.append(["grep", "-F", "\n".join(sorted(self._filters.keys(), reverse=True))])
+            # "-e" keeps a filter with leading "-" from being taken as an option
+            patterns = "\n".join(sorted(self._filters.keys(), reverse=True))
+            command.append(["grep", "-F", "-e", patterns])
 
         return command
 
